@@ -26,6 +26,8 @@ def case(rep, drv, rnd, i, tier):
     try:
         real, late = unif.real_unify(pairs, watch, sched, atoms=atoms)
         real_sw, _ = unif.real_unify(pairs, watch, sched, swap_last=True, atoms=atoms)
+        how = rnd.choice(['created-first', 'method'])
+        real_df, _ = unif.real_unify(pairs, watch, sched, atoms=atoms, deferred=how)
     except RecursionError:
         real = None
     try:
@@ -54,13 +56,15 @@ def case(rep, drv, rnd, i, tier):
         bad = '%d variables still bound after the generator ended' % real[3]
     elif sx(real) != sx(real_sw):
         bad = 'unify(t1,t2) and unify(t2,t1) differ'
+    elif sx(real) != sx(real_df):
+        bad = 'unification objects %s behave differently from unifications started where they are created' % how
     else:
         # C15: saved get_value results of ground answers still denote the same terms
         if late and is_ground(outs[0]) and sx(late[0]) != sx(outs[0]):
             bad = 'value saved at the answer changed after backtracking'
     if bad:
         rep.disagreements_checked += 1
-        rep.violation(dict(payload, kind=bad, real=sx(real), swapped=sx(real_sw), textbook=sx(list(tb)), model=sx(model), late=sx(late)))
+        rep.violation(dict(payload, kind=bad, real=sx(real), swapped=sx(real_sw), deferred=sx(real_df), textbook=sx(list(tb)), model=sx(model), late=sx(late)))
         return
     if tb[0] == 'ans' and len(pairs) >= 1:
         rep.nontriv(payload['pairs'])
@@ -121,7 +125,8 @@ def run(tier):
                         'changes with equal names, name changes with equal arity, shared variables, var-var chains) under 0-4 earlier '
                         'still-active unifications, consumer exhausts / closes at the yield / never starts / raises; oracle = independent '
                         'Robinson unifier (occurs-check-only failures are unspecified and skipped); checked: number of yields, mgu up to '
-                        'renaming incl. aliasing, symmetry, no binding left, saved ground values stable; non-trivial = unifiable; '
+                        'renaming incl. aliasing, symmetry, the same with all unification objects created before the first is started or obtained '
+                        'from the terms\' own unify method, no binding left, saved ground values stable; non-trivial = unifiable; '
                         'distinct = distinct pair lists')
 
 
